@@ -2,6 +2,7 @@ package main
 
 func controlsC09() []Control {
 	return []Control{
+		{Name: "set-up replaces the state object in a copy of the gate (value receiver)", Expect: "R6", Mutate: replaceBoth("(*openGameManager).Setup", "func (m *openGameManager) Setup(", "func (m openGameManager) Setup(", "\tm.state.GameCount = gameCount\n", "\tm.state = &OpenGameState{Timeout: m.state.Timeout, Participants: m.state.Participants}\n\tm.state.GameCount = gameCount\n")},
 		{Name: "completion reported only for a game count not reported before", Expect: "R3", Mutate: replaceIn("(*openGameManager).readyGroupOnCompleted", "\tm.onOpenGameReady(", "\tif m.state.GameCount < 0 {\n\t\treturn\n\t}\n\tm.onOpenGameReady(", 0)},
 		{Name: "Setup does not stop the previous round", Expect: "R1", Mutate: replaceIn("(*openGameManager).Setup", "m.rg.Stop()\n", "", 0)},
 		{Name: "Setup pre-readies every participant", Expect: "R1", Mutate: replaceIn("(*openGameManager).Setup", "m.readyGroupAddParticipant(participant, false)", "m.readyGroupAddParticipant(participant, true)", 0)},
